@@ -382,6 +382,8 @@ func checkC13(c *Ctx, r *Report) {
 	c13CloseBeforeDone(c, r, "C13.R2.close-before-done")
 	c13LockReleasedOnReturn(c, r, "C13.R3.lock-released")
 	c13FreshGeneration(c, r, "C13.R4.fresh-generation")
+	r.rule("C13.R5.accepted-conn", 1, "a connection serveTCP accepted is handed to a connection goroutine or closed on every path")
+	acceptedConnNotDropped(c, r, "C13.R5.accepted-conn")
 }
 
 func fnDisplay(f *ssa.Function) string {
